@@ -182,6 +182,13 @@ func runC05Schedule(r *rng, nEvents int, script []string) (c05Case, error) {
 			if h.Term < v.hard.Term {
 				v.violation = append(v.violation, fmt.Sprintf("store reopened with an older term: %d -> %d", v.hard.Term, h.Term))
 			}
+			// a store that holds a snapshot starts right after it: entries at or below the snapshot index are gone for
+			// good (raft would hand them to the state machine again, on top of the snapshot's newer state)
+			if sn, e := w.Snapshot(); e == nil && sn.Metadata.Index > 0 {
+				if fi, e := w.FirstIndex(); e == nil && fi != sn.Metadata.Index+1 {
+					v.violation = append(v.violation, fmt.Sprintf("store reopened with first index %d although it holds a snapshot at index %d: the entries below the snapshot are still there", fi, sn.Metadata.Index))
+				}
+			}
 			// the reopened log must be the log that was made durable: same last index, same term at every index it still holds
 			if v.saves > 0 && v.logLast > 0 {
 				if li, e := w.LastIndex(); e == nil && li != v.logLast {
@@ -814,8 +821,9 @@ func runC05(a *args) error {
 		case 3:
 			// a replica is down while the others write and compact their logs past what it has: on its return the leader
 			// brings it up to date with a snapshot message (the received snapshot, the hard state and the entries of that
-			// Ready are one durable write)
-			script = []string{"W1", "W2", "S", "K3", "S", "W1", "W2", "W1", "W2", "S", "P1", "P2", "R", "S", "W1", "S"}
+			// Ready are one durable write); then it goes down and comes back once more: what it stored when it installed
+			// the snapshot is what it restarts from
+			script = []string{"W1", "W2", "S", "K3", "S", "W1", "W2", "W1", "W2", "S", "P1", "P2", "R", "S", "W1", "S", "K3", "S", "R", "S"}
 		case 4:
 			// a third replica joins a running two-replica group: it must take the group's log, not start one of its own
 			script = []string{"G12", "W1", "W2", "W1", "S", "A3", "S", "W1", "W3", "W2", "S"}
@@ -875,6 +883,8 @@ func runC05(a *args) error {
 				key = "raft-glue:sent-before-durable"
 			} else if strings.Contains(v, "converge") {
 				key = "raft-glue:no-convergence"
+			} else if strings.Contains(v, "entries below the snapshot") {
+				key = "raft-glue:stale-entries-after-snapshot"
 			} else if strings.Contains(v, "ready contract") {
 				key = "raft-glue:ready-contract"
 			} else if strings.Contains(v, "forked history") {
